@@ -23,6 +23,8 @@ import time
 import traceback
 
 sys.path.insert(0, os.path.dirname(os.path.abspath(__file__)))
+import warnings
+warnings.filterwarnings("ignore", category=SyntaxWarning)
 import vlib  # noqa: E402
 
 
@@ -111,6 +113,17 @@ def main():
                 broken.append("leanchecker")
         except subprocess.TimeoutExpired:
             leanchecker = {"rc": None, "tail": "timeout"}
+    # 3c. translator self-check: generated tables vs the live Python objects (only the tables this property uses)
+    gen_selfcheck = {}
+    if driver_ok:
+        try:
+            import gencheck
+            gen_selfcheck = gencheck.run(ctx.driver)
+            for table, msgs in gen_selfcheck.items():
+                if table in getattr(mod, "GEN_DEPS", []):
+                    broken.append("translator-selfcheck:%s: %s" % (table, msgs[0]))
+        except Exception:
+            gen_selfcheck = {"error": [traceback.format_exc()[-800:]]}
     # 4. correspondence
     corr_error = None
     if driver_ok:
@@ -168,7 +181,7 @@ def main():
             "oracle_failures": ctx.failures[:20],
             "known_findings_observed": sorted(seen_listed),
             "broken": broken, "translator": {"ok": rep.get("ok"), "errors": rep.get("errors"), "changed": rep.get("changed")},
-            "leanchecker": leanchecker,
+            "leanchecker": leanchecker, "translator_selfcheck_mismatches": gen_selfcheck,
             "notes": ctx.notes, **ctx.extra,
         },
         "assumptions": list(getattr(mod, "ASSUMPTIONS", [])),
